@@ -265,6 +265,51 @@ pub fn run(ctx: &Ctx, rep: &mut Report) {
                     cases.push(Case { kind: kind.clone(), left: sh.m.nr as i64, right: 0, cost: 100, pos: p.clone(), pos_exists: exists, user_pos: up });
                 }
             }
+            // POS with a wrong number of components never "exists" and can not be registered either
+            for arity in [0usize, 1, 3, 5, 7] {
+                if matches!(kind, Kind::MeCab) && arity > 6 {
+                    // an unk.def line simply has more columns than are read: not a POS of 7 components
+                    continue;
+                }
+                for up in [None, Some("allow"), Some("forbid")] {
+                    let mut p: Vec<String> = pool[0].to_vec();
+                    p.truncate(arity.min(6));
+                    while p.len() < arity {
+                        p.push("*".to_string());
+                    }
+                    rep.eval();
+                    let mut v = json!({"class": format!("{}SimpleOovPlugin", CLS), "oovPOS": p, "leftId": 0, "rightId": 0, "cost": 100});
+                    let mut oov = vec![];
+                    match kind {
+                        Kind::Simple => {}
+                        Kind::Regex => {
+                            v["class"] = json!(format!("{}RegexOovProvider", CLS));
+                            v["regex"] = json!("[ⓧⓨ]+");
+                        }
+                        Kind::MeCab => {
+                            sh.res.write("unk.def", &format!("DEFAULT,0,0,100,{}\n", p.join(",")));
+                            v = json!({"class": format!("{}MeCabOovPlugin", CLS), "charDef": "char.def", "unkDef": "unk.def"});
+                        }
+                    }
+                    if let Some(u) = up {
+                        v["userPOS"] = json!(u);
+                    }
+                    oov.push(v);
+                    oov.push(env::simple_oov(&pool[0], 0, 0, 20000));
+                    let cfg_json = json!({"characterDefinitionFile": "char.def", "oovProviderPlugin": oov});
+                    let cfg = env::config(&cfg_json, &sh.res);
+                    let scen = || json!({"matrix": format!("{}x{}", nl, nr), "pos_components": arity, "userPOS": up, "config": cfg_json});
+                    rep.nontrivial(fnv(format!("arity{}x{}|{:?}|{}|{:?}", nl, nr, kind, arity, up).as_bytes()));
+                    match guard(|| env::load(&cfg, &sh.sys_bytes, &[], Place::Owned)) {
+                        Err(pn) => rep.violation("load_panic", &pn.site, &format!("POS with {} components: {}", arity, pn.msg), "", scen()),
+                        Ok(Err(_)) => rep.count("configurations_rejected", 1),
+                        Ok(Ok(_)) => {
+                            rep.count("configurations_accepted", 1);
+                            rep.violation("invalid_accepted", "from_cfg_storage", &format!("{:?} provider with a part of speech of {} components (userPOS {:?}) is accepted: such a POS neither exists nor can be registered", kind, arity, up), "", scen());
+                        }
+                    }
+                }
+            }
             for c in cases {
                 rep.eval();
                 let cfg_json = case_cfg(&c, &sh);
